@@ -213,7 +213,7 @@ def build_cases(spec, tier, uni, rnd):
             bks = spec.backends
         else:
             bks = [spec.backends[i % len(spec.backends)]]
-            if i % 4 == 0:
+            if i % 8 == 0:
                 bks = spec.backends
         for b in bks:
             cid += 1
